@@ -3,15 +3,21 @@
 Monitors (post-conditions on every execution of the real functions, wherever the call comes from):
   stockwell.transform / transform_w_scipy_fft   shape; every cell against the defining triple sum (oracles/stransform.py,
                                                 direct sums, no FFT); row sums against the direct DFT; the scipy variant
-                                                additionally against the numpy variant on the same record
+                                                additionally against the numpy variant on the same record; the record
+                                                argument bit-for-bit unchanged
   stockwell.itransform                          against record - mean - Nyquist component (record known from the
-                                                provenance registry filled by the transform monitors)
+                                                provenance registry filled by the transform monitors); argument unchanged
   stockwell.get_max_stockwell_freq / get_max_tifq_vals_freq
                                                 every entry is the grid frequency n/(N dt) of a row attaining the column
-                                                maximum; for an on-grid sinusoid (recognised by the DFT oracle) inside
-                                                [2nd harmonic, 3/4 Nyquist] the trace equals k/(N dt) on the middle half
-Driver-side relation between executions: linearity T(a x + b y) = a T(x) + b T(y).
-Every clause name carries the parity of the record length ([even]/[odd]; odd lengths exercise the truncation).
+                                                maximum (tifq: of the array passed; asig: of the REFERENCE transform of
+                                                the values the object had at call entry - the object's cache is not read);
+                                                for an on-grid sinusoid (recognised by the DFT oracle) inside
+                                                [2nd harmonic, 3/4 Nyquist] the trace equals k/(N dt) on the middle half;
+                                                arguments unchanged
+Driver-side relations between executions: linearity T(a x + b y) = a T(x) + b T(y); every FIRST result (transform, row
+sums, inverse, both dominant-frequency traces) re-judged by the same clauses after a second record of the same length
+went through the same functions (process-wide scratch state); caller arrays unchanged after a whole call sequence.
+Every clause about values carries the parity of the record length ([even]/[odd]; odd lengths exercise the truncation).
 """
 import collections
 import math
@@ -23,55 +29,77 @@ from vf.oracles import stransform as O
 
 PROP_ID = 'C15'
 TECHNIQUE = ('runtime post-condition monitors on transform / transform_w_scipy_fft / itransform / get_max_stockwell_freq / '
-             'get_max_tifq_vals_freq with a direct-sum (no FFT) reference S-transform and DFT; driver-side linearity relation')
+             'get_max_tifq_vals_freq with a direct-sum (no FFT) reference S-transform and DFT; argument-purity monitors; '
+             'driver-side linearity relation and back-to-back re-checks of held results')
 RULE = ('cases = (record, container, implementation | dt) calls of the real functions. Definition part: EVERY length 4..64 x '
-        'all 14 record classes (noise, ground-motion windows, walks, chirps, impulses, steps, plateaus, constants, ...; '
-        'float64/float32/int64/list/tuple containers; thorough: twice) plus fixed and random lengths up to 256 (quick) / 1024 '
-        '(thorough); each case runs both implementations, the inverse of one of them, the dominant-frequency helper on the '
-        'other and (every second case) a linear combination with a second record. Sinusoid part: EVERY on-grid harmonic '
-        '2 <= k <= 0.75 N/2 for N in {16,32,64,100,128} (thorough: 14 values of N up to 640) and harmonics '
-        '{2, k_max, random} for EVERY even N in 16..260 (thorough: 16..520) -- each N also as the odd length N+1 -- plus one '
-        'harmonic for 29 sampled N in 280..1024 (quick) / EVERY even N in 522..1024 (thorough) and an odd partner length; '
-        'random phase and amplitude; each sinusoid is transformed, inverted and driven through '
-        'get_max_stockwell_freq(AccSignal(record, dt)) and get_max_tifq_vals_freq(transform(record) or its modulus, dt) for '
-        '2..8 dt per record (nice decimals and the 1/k floor-trap list cycled deterministically against the lengths, 1/k for '
-        'random integer k <= 1000, log-uniform over [1e-4, 10] and [1e-3, 1]). distinct = digest(record, options); '
-        'non-trivial = record with at least two distinct values.')
-ASSUMPTIONS = ['real, finite records of length 4..1024 (complex input, shorter/longer records are counted, not judged)',
+        '21 record classes (noise, ground-motion windows, walks, chirps, impulses, steps, plateaus, constants, flat starts/ends, '
+        'extreme at the first/last sample, sign change at the last step, small signal on a large offset, micro 1e-12..1e-9 '
+        'and macro 1e9..1e12 amplitudes; thorough: twice) plus lengths around every power of two up to 1024 and random '
+        'lengths; containers float64/float32/int64/int32/int16/int8/uint8/uint16 (values filling the dtype range), lists and '
+        'tuples of floats / ints / mixed, strided, reversed and read-only views. Each case passes ONE argument object to both '
+        'implementations (positional / keyword / interp=False forms), inverts one result and feeds the other to the '
+        'dominant-frequency helper (as returned, modulus, float32 modulus, Fortran-ordered, read-only, nested list for the '
+        'inverse), then repeats everything with a second record of the same length and re-judges the FIRST results, plus a '
+        'linear combination (every second case). Sinusoid part: EVERY on-grid harmonic 2 <= k <= 0.75 N/2 for N in '
+        '{16,32,64,100,128} (thorough: 16 values of N up to 1000) and harmonics {2, k_max, random} for EVERY even N in 16..260 '
+        '(thorough: 16..520) -- each N also as the odd length N+1 -- plus one harmonic for 29 sampled N in 280..1024 (quick) / '
+        'EVERY even N in 522..1024 (thorough) and an odd partner; random phase, amplitude 1 or 10^U(-12,12); float64 / float32 / '
+        'list / strided / read-only records; each sinusoid is transformed, inverted and driven through '
+        'get_max_stockwell_freq(AccSignal(record, dt)) and get_max_tifq_vals_freq(transform or a derived form, dt) for 2..8 dt '
+        'per record (nice decimals and the 1/k floor-trap list cycled against the lengths, 1/k for random k <= 1000, '
+        'log-uniform over [1e-9, 1e3], [1e-4, 10], [1e-3, 1]; Python float / int / numpy float64 / float32 scalars). For every N '
+        'of the every-N block one same-object history: twin objects from one caller array and from each other\'s values, '
+        'repeated calls (cached swtf), reads of other cached quantities in between, the caller-presets-swtf idiom, and '
+        'reset_values followed by a call (stale cache: observation) and by the re-preset idiom (judged). '
+        'distinct = digest(record, options); non-trivial = record with at least two distinct values.')
+ASSUMPTIONS = ['real, finite records of length 4..1024 (complex input, scalars, lengths 1..3 and > 1024 are counted, not judged; '
+               'records past 2**16 are not driven: the (n/2 x n) result alone would take 34 GB)',
                'the Gaussian window of width 1/f is periodised once: m runs over the alias representatives -(N/2-1)..N/2',
                'float32 records are judged with the tolerance scaled by eps(float32)/eps(float64) (numpy keeps the '
-               'precision of the input in the forward FFT)',
+               'precision of the input in the forward FFT); a float32 time step with 1e-6 relative on the frequencies',
                '"middle half" = samples ceil(N/4) .. floor(3N/4)-1 of the even-truncated record of length N',
-               'an "on-grid sinusoid" is a record whose direct DFT vanishes (1e-9 relative, 2-norm) outside bins k and N-k',
+               'an "on-grid sinusoid" is a record whose direct DFT vanishes (1e-9 relative, 2-norm; 1e-6 for float32 records) '
+               'outside bins k and N-k; integer-quantised sinusoids are therefore judged by the column-maximum clause only',
+               'transform(..., interp=True) is outside the statement (counted, not judged); a nested list passed as the '
+               'time-frequency array of get_max_tifq_vals_freq is rejected by the library (counted)',
+               'the quantifier is over inputs, not object histories: get_max_stockwell_freq on an object whose cached swtf is '
+               'not the transform of its current values (reset_values keeps the old swtf) is counted as an observation, with '
+               'the number of such calls whose trace differs from the current record reported separately',
                'oracle vf/oracles/stransform.py is correct (vectorised direct sums, cross-checked in every run against the '
                'literal scalar triple loop on short records)']
 MIN_EVALS = {
     'quick': {
-        'transform==definition[even]': 2200, 'transform==definition[odd]': 2200,
-        'transform_w_scipy_fft==definition[even]': 450, 'transform_w_scipy_fft==definition[odd]': 450,
-        'implementations-agree[even]': 450, 'implementations-agree[odd]': 450,
-        'shape==(n/2,n)[even]': 2700, 'shape==(n/2,n)[odd]': 2700,
-        'row-sum==conj(X_n)[even]': 2700, 'row-sum==conj(X_n)[odd]': 2700,
-        'linearity[even]': 120, 'linearity[odd]': 120,
-        'inverse==record-mean-nyquist[even]': 480, 'inverse==record-mean-nyquist[odd]': 480,
-        'maxfreq(asig)==f.middle-half[even]': 1600, 'maxfreq(asig)==f.middle-half[odd]': 1600,
-        'maxfreq(tifq)==f.middle-half[even]': 1600, 'maxfreq(tifq)==f.middle-half[odd]': 1600,
-        'maxfreq(asig).is-frequency-of-column-max[even]': 1600, 'maxfreq(asig).is-frequency-of-column-max[odd]': 1600,
-        'maxfreq(tifq).is-frequency-of-column-max[even]': 1800, 'maxfreq(tifq).is-frequency-of-column-max[odd]': 1800,
+        'transform==definition[even]': 5000, 'transform==definition[odd]': 5000,
+        'transform_w_scipy_fft==definition[even]': 1900, 'transform_w_scipy_fft==definition[odd]': 1900,
+        'implementations-agree[even]': 1500, 'implementations-agree[odd]': 1500,
+        'shape==(n/2,n)[even]': 6900, 'shape==(n/2,n)[odd]': 6900,
+        'row-sum==conj(X_n)[even]': 6900, 'row-sum==conj(X_n)[odd]': 6900,
+        'linearity[even]': 180, 'linearity[odd]': 180,
+        'inverse==record-mean-nyquist[even]': 3700, 'inverse==record-mean-nyquist[odd]': 3700,
+        'maxfreq(asig)==f.middle-half[even]': 2400, 'maxfreq(asig)==f.middle-half[odd]': 2400,
+        'maxfreq(tifq)==f.middle-half[even]': 2100, 'maxfreq(tifq)==f.middle-half[odd]': 2100,
+        'maxfreq(asig).is-frequency-of-column-max[even]': 3700, 'maxfreq(asig).is-frequency-of-column-max[odd]': 3700,
+        'maxfreq(tifq).is-frequency-of-column-max[even]': 5000, 'maxfreq(tifq).is-frequency-of-column-max[odd]': 5000,
+        'argument-unchanged(transform)': 9000, 'argument-unchanged(transform_w_scipy_fft)': 3000,
+        'argument-unchanged(itransform)': 6000, 'argument-unchanged(get_max_tifq_vals_freq)': 8500,
+        'argument-unchanged(get_max_stockwell_freq)': 6500, 'argument-unchanged(sequence)': 3000,
         'oracle.vectorised==scalar': 8,
     },
     'thorough': {
-        'transform==definition[even]': 6500, 'transform==definition[odd]': 6500,
-        'transform_w_scipy_fft==definition[even]': 1000, 'transform_w_scipy_fft==definition[odd]': 1000,
-        'implementations-agree[even]': 1000, 'implementations-agree[odd]': 1000,
-        'shape==(n/2,n)[even]': 7500, 'shape==(n/2,n)[odd]': 7500,
-        'row-sum==conj(X_n)[even]': 7500, 'row-sum==conj(X_n)[odd]': 7500,
-        'linearity[even]': 230, 'linearity[odd]': 230,
-        'inverse==record-mean-nyquist[even]': 1400, 'inverse==record-mean-nyquist[odd]': 1400,
-        'maxfreq(asig)==f.middle-half[even]': 5000, 'maxfreq(asig)==f.middle-half[odd]': 5000,
-        'maxfreq(tifq)==f.middle-half[even]': 5000, 'maxfreq(tifq)==f.middle-half[odd]': 5000,
-        'maxfreq(asig).is-frequency-of-column-max[even]': 5000, 'maxfreq(asig).is-frequency-of-column-max[odd]': 5000,
-        'maxfreq(tifq).is-frequency-of-column-max[even]': 5500, 'maxfreq(tifq).is-frequency-of-column-max[odd]': 5500,
+        'transform==definition[even]': 20000, 'transform==definition[odd]': 20000,
+        'transform_w_scipy_fft==definition[even]': 6000, 'transform_w_scipy_fft==definition[odd]': 6000,
+        'implementations-agree[even]': 3500, 'implementations-agree[odd]': 3500,
+        'shape==(n/2,n)[even]': 26000, 'shape==(n/2,n)[odd]': 26000,
+        'row-sum==conj(X_n)[even]': 26000, 'row-sum==conj(X_n)[odd]': 26000,
+        'linearity[even]': 350, 'linearity[odd]': 350,
+        'inverse==record-mean-nyquist[even]': 8000, 'inverse==record-mean-nyquist[odd]': 8000,
+        'maxfreq(asig)==f.middle-half[even]': 8000, 'maxfreq(asig)==f.middle-half[odd]': 8000,
+        'maxfreq(tifq)==f.middle-half[even]': 8000, 'maxfreq(tifq)==f.middle-half[odd]': 8000,
+        'maxfreq(asig).is-frequency-of-column-max[even]': 9000, 'maxfreq(asig).is-frequency-of-column-max[odd]': 9000,
+        'maxfreq(tifq).is-frequency-of-column-max[even]': 12000, 'maxfreq(tifq).is-frequency-of-column-max[odd]': 12000,
+        'argument-unchanged(transform)': 20000, 'argument-unchanged(transform_w_scipy_fft)': 6000,
+        'argument-unchanged(itransform)': 10000, 'argument-unchanged(get_max_tifq_vals_freq)': 15000,
+        'argument-unchanged(get_max_stockwell_freq)': 10000, 'argument-unchanged(sequence)': 2500,
         'oracle.vectorised==scalar': 8,
     },
 }
@@ -81,6 +109,7 @@ RTOL = 1e-12           # DESIGN.md C15 (d): per cell <= 1e-12 * sum|x|; inverse 
 RTOL_FREQ = 1e-12      # relative tolerance of a reported frequency against k/(N dt)
 LEN_MIN, LEN_MAX = 4, 1024
 IMPLS = ('transform', 'transform_w_scipy_fft')
+AFTER = 're-judged after a second record of the same length went through the same functions: '
 
 
 def n_shards(tier):
@@ -89,8 +118,8 @@ def n_shards(tier):
 
 # -------------------------------------------------------------------------------------------- provenance + caches
 class _Registry(object):
-    """Which record a returned time-frequency array came from (by object identity; the array is kept alive so the id
-    cannot be reused)."""
+    """Which record a time-frequency array came from (by object identity; the object is kept alive so the id cannot be
+    reused). Least-recently-used eviction."""
 
     def __init__(self, cap):
         self.cap = cap
@@ -105,14 +134,14 @@ class _Registry(object):
     def get(self, arr):
         e = self.d.get(id(arr))
         if e is not None and e[0] is arr:
-            self.d.move_to_end(id(arr))     # least-recently-USED eviction: an array still being worked with stays
+            self.d.move_to_end(id(arr))
             return e[1]
         return None
 
 
-REG = _Registry(8)
+REG = _Registry(12)
 _ORACLE_CACHE = collections.OrderedDict()     # digest(even part) -> (conj S reference, H)
-_HARMONIC_CACHE = collections.OrderedDict()   # digest(even part) -> k or None
+_HARMONIC_CACHE = collections.OrderedDict()   # (digest(even part), rel) -> k or None
 
 
 def _oracle(xe):
@@ -121,36 +150,98 @@ def _oracle(xe):
     if hit is None:
         hit = O.s_transform_conj(xe)
         _ORACLE_CACHE[key] = hit
-        while len(_ORACLE_CACHE) > 3:
+        while len(_ORACLE_CACHE) > 4:
             _ORACLE_CACHE.popitem(last=False)
     else:
         _ORACLE_CACHE.move_to_end(key)
     return hit
 
 
-def _harmonic(xe):
-    key = core.digest(xe)
+def _harmonic(xe, rel):
+    key = (core.digest(xe), rel)
     if key not in _HARMONIC_CACHE:
-        _HARMONIC_CACHE[key] = O.on_grid_harmonic(xe)
+        _HARMONIC_CACHE[key] = O.on_grid_harmonic(xe, rel)
         while len(_HARMONIC_CACHE) > 256:
             _HARMONIC_CACHE.popitem(last=False)
     return _HARMONIC_CACHE[key]
 
 
-def remember(arr, source):
-    """Driver-side provenance: arr was derived (e.g. modulus) from the monitored transform result `source`."""
+VALUE_PRESERVING = (None, 'F', 'readonly', 'list')      # derived forms that hold the same complex numbers
+
+
+def derive(s, how):
+    """A derived form of a transform result (driver and replay)."""
+    if how is None:
+        return s
+    if how == 'abs':
+        return np.abs(s)
+    if how == 'abs32':
+        return np.abs(s).astype(np.float32)
+    if how == 'abs-readonly':
+        t = np.abs(s)
+        t.flags.writeable = False
+        return t
+    if how == 'F':
+        return np.asfortranarray(s)
+    if how == 'readonly':
+        t = np.array(s)
+        t.flags.writeable = False
+        return t
+    if how == 'list':
+        return np.asarray(s).tolist()
+    raise ValueError(how)
+
+
+def remember(arr, source, how):
+    """Driver-side provenance: arr was derived from the monitored transform result `source`."""
     info = REG.get(source)
-    if info is not None:
+    if info is not None and arr is not source:
         d = dict(info)
-        d['derived'] = 'abs'
+        d['derived'] = how
         REG.put(arr, d)
 
 
 # ------------------------------------------------------------------------------------------------ record intake
 def _kind(acc):
     if isinstance(acc, np.ndarray):
-        return 'ndarray:%s' % acc.dtype
-    return type(acc).__name__
+        k = 'ndarray:%s' % acc.dtype
+        if acc.ndim == 1 and len(acc) > 1:
+            if acc.strides[0] < 0:
+                k += ':reversed'
+            elif acc.strides[0] != acc.itemsize:
+                k += ':strided'
+        if not acc.flags.writeable:
+            k += ':readonly'
+        return k
+    name = type(acc).__name__
+    if isinstance(acc, (list, tuple)):
+        ts = set(type(v) for v in acc)
+        if int in ts and float in ts:
+            name += ':mixed'
+    return name
+
+
+def _container(rec, kind):
+    """Rebuild the container a witness describes."""
+    a = np.asarray(rec)
+    parts = kind.split(':')
+    if parts[0] in ('list', 'tuple'):
+        vals = a.tolist()
+        if 'mixed' in parts:
+            vals = [int(v) if float(v).is_integer() else float(v) for v in vals]
+        return vals if parts[0] == 'list' else tuple(vals)
+    if parts[0] != 'ndarray':
+        return np.array(a)
+    a = np.array(a, dtype=parts[1])
+    if 'strided' in parts:
+        buf = np.zeros(2 * len(a), dtype=a.dtype)
+        buf[::2] = a
+        a = buf[::2]
+    elif 'reversed' in parts:
+        a = np.array(a[::-1])[::-1]
+    if 'readonly' in parts:
+        a.flags.writeable = False
+    return a
 
 
 def _intake(acc):
@@ -190,63 +281,198 @@ def _wit(fn, rec, kind, **kw):
     return d
 
 
-def _container(rec, kind):
-    """Rebuild the container a witness describes."""
-    a = np.asarray(rec)
-    if kind == 'list':
-        return a.tolist()
-    if kind == 'tuple':
-        return tuple(a.tolist())
-    if kind.startswith('ndarray:'):
-        return np.array(a, dtype=kind.split(':', 1)[1])
-    return np.array(a)
+def _snapshot(obj):
+    try:
+        return np.array(obj)
+    except Exception:
+        return None
+
+
+def _same_bits(obj, snap):
+    if snap is None:
+        return True
+    try:
+        b = np.array(obj)
+    except Exception:
+        return False
+    return b.dtype == snap.dtype and b.shape == snap.shape and b.tobytes() == snap.tobytes()
+
+
+def _first_change(obj, snap):
+    try:
+        b = np.array(obj)
+        if b.shape != snap.shape or b.dtype != snap.dtype:
+            return 'shape/dtype %s %s -> %s %s' % (snap.shape, snap.dtype, b.shape, b.dtype)
+        bb = b.ravel().view(np.uint8).reshape(b.size, -1) if b.size else b
+        ss = snap.ravel().view(np.uint8).reshape(snap.size, -1) if snap.size else snap
+        i = int(np.argmax(np.any(bb != ss, axis=1)))
+        return 'flat index %d: %r -> %r' % (i, snap.ravel()[i].item(), b.ravel()[i].item())
+    except Exception as ex:   # noqa
+        return 'not comparable (%r)' % (ex,)
+
+
+def _dt_form(dt):
+    if isinstance(dt, np.generic):
+        return str(dt.dtype)
+    return type(dt).__name__
+
+
+def _dt_build(v, form):
+    if form in ('float', None):
+        return float(v)
+    if form == 'int':
+        return int(v)
+    return np.dtype(form).type(v)
 
 
 # ------------------------------------------------------------------------------------------------------ monitors
-def check_transform(ctx, impl, rec, kind, result):
-    """Post-condition of one execution of `impl` on the (pre-call copy of the) record."""
+def check_transform(ctx, impl, rec, kind, result, wit=None, tag=''):
+    """Post-condition of one execution of `impl` on the (call-entry copy of the) record."""
     n = len(rec)
     par = _par(n)
     n_pts = 2 * (n // 2)
     xe = O.even_part(rec)
     scale = float(np.sum(np.abs(xe)))
     fac = _fac(rec)
+    if wit is None:
+        wit = lambda: _wit(impl, rec, kind)   # noqa
     res = np.asarray(result)
     shape_ok = res.ndim == 2 and res.shape == (n_pts // 2, n_pts) and res.dtype.kind == 'c'
-    ctx.check(shape_ok, 'shape==(n/2,n)[%s]' % par, lambda: _wit(impl, rec, kind),
-              '%s(record of length %d) returned %s array of shape %s, expected complex (%d, %d)'
-              % (impl, n, res.dtype, res.shape, n_pts // 2, n_pts))
+    ctx.check(shape_ok, 'shape==(n/2,n)[%s]' % par, wit,
+              '%s%s(record of length %d) returned %s array of shape %s, expected complex (%d, %d)'
+              % (tag, impl, n, res.dtype, res.shape, n_pts // 2, n_pts))
     if not shape_ok:
         return False
     ref, h = _oracle(xe)
     ok, idx, e, a = tol.worst(res, ref, scale=scale, rtol=RTOL * fac)
-    ctx.check(ok, '%s==definition[%s]' % (impl, par), lambda: _wit(impl, rec, kind, worst_cell=list(idx or ())),
-              '%s(len %d): cell %s (voice n=%s, time j=%s) is %r, conj of the defining sum is %r; |diff|=%.3g allowed %.3g'
-              % (impl, n, idx, (n_pts // 2 - idx[0]) if idx else None, idx[1] if idx else None,
+    ctx.check(ok, '%s==definition[%s]' % (impl, par), wit,
+              '%s%s(len %d, %s): cell %s (voice n=%s, time j=%s) is %r, conj of the defining sum is %r; |diff|=%.3g allowed %.3g'
+              % (tag, impl, n, kind, idx, (n_pts // 2 - idx[0]) if idx else None, idx[1] if idx else None,
                  complex(res[idx]) if idx else None, complex(ref[idx]) if idx else None, e, a))
     rows = res.sum(axis=1)
     mg = O.marginal(h)
     ok2, idx2, e2, a2 = tol.worst(rows, mg, scale=n_pts * scale, rtol=RTOL * fac)
-    ctx.check(ok2, 'row-sum==conj(X_n)[%s]' % par, lambda: _wit(impl, rec, kind),
-              '%s(len %d): sum over time of row %s (voice n=%s) is %r, conj Fourier coefficient is %r; |diff|=%.3g allowed %.3g'
-              % (impl, n, idx2, (n_pts // 2 - idx2[0]) if idx2 else None, complex(rows[idx2]) if idx2 else None,
-                 complex(mg[idx2]) if idx2 else None, e2, a2))
+    ctx.check(ok2, 'row-sum==conj(X_n)[%s]' % par, wit,
+              '%s%s(len %d, %s): sum over time of row %s (voice n=%s) is %r, conj Fourier coefficient is %r; |diff|=%.3g '
+              'allowed %.3g' % (tag, impl, n, kind, idx2, (n_pts // 2 - idx2[0]) if idx2 else None,
+                                complex(rows[idx2]) if idx2 else None, complex(mg[idx2]) if idx2 else None, e2, a2))
     return True
+
+
+def check_inverse(ctx, rec, kind, impl, derived, result, wit=None, tag=''):
+    n = len(rec)
+    par = _par(n)
+    n_pts = 2 * (n // 2)
+    target = O.inverse_target(rec)
+    peak = float(np.max(np.abs(O.even_part(rec))))
+    if wit is None:
+        wit = lambda: _wit('itransform', rec, kind, impl=impl, derived=derived)   # noqa
+    res = np.asarray(result)
+    ok = res.shape == (n_pts,) and res.dtype.kind == 'f'
+    e = a = float('nan')
+    idx = None
+    if ok:
+        ok, idx, e, a = tol.worst(res, target, scale=n_pts * peak, rtol=RTOL * _fac(rec))
+    ctx.check(ok, 'inverse==record-mean-nyquist[%s]' % par, wit,
+              '%sitransform(%s(record of length %d, %s)%s) has shape %s dtype %s; worst sample %s |diff|=%.3g allowed %.3g '
+              '(target = record - mean - Nyquist component)'
+              % (tag, impl, n, kind, (' as ' + derived) if derived else '', res.shape, res.dtype, idx, e, a))
+
+
+def check_maxfreq(ctx, via, rec, kind, dt, amp, result, wit, tag='', amp_is_reference=False):
+    """amp: modulus array the trace must be the column-argmax frequency of (the array passed for tifq; the reference
+    transform of the call-entry values for asig, then with a rounding allowance on ties)."""
+    n = len(rec)
+    par = _par(n)
+    n_pts = 2 * (n // 2)
+    try:
+        dtf = float(dt)
+    except Exception:
+        dtf = float('nan')
+    if not (dtf > 0 and math.isfinite(dtf)):
+        ctx.observe('maxfreq(%s):dt-not-positive-finite' % via)
+        return
+    low_dt = isinstance(dt, np.floating) and dt.dtype.itemsize < 8
+    grid_tol = 1e-6 if low_dt else 1e-9
+    freq_rtol = 1e-6 if low_dt else RTOL_FREQ
+    res = np.asarray(result)
+    # (1) every entry is the grid frequency n/(N dt), n in 1..N/2, of a row that attains the column maximum
+    ok = res.shape == (n_pts,) and res.dtype.kind in 'fiu' and bool(np.all(np.isfinite(res)))
+    why = 'shape %s dtype %s' % (res.shape, res.dtype)
+    if ok:
+        nn = res.astype(float) * n_pts * dtf
+        r = np.rint(nn)
+        on_grid = (np.abs(nn - r) <= grid_tol * np.maximum(1.0, np.abs(r))) & (r >= 1) & (r <= n_pts // 2)
+        if not np.all(on_grid):
+            j = int(np.argmin(on_grid))
+            ok = False
+            why = 'entry %d = %r is not a grid frequency n/(N dt), n in 1..%d (N=%d, dt=%r; n would be %r)' \
+                  % (j, float(res[j]), n_pts // 2, n_pts, dt, float(nn[j]))
+        elif amp.shape != (n_pts // 2, n_pts):
+            ok = False
+            why = 'time-frequency array of shape %s' % (amp.shape,)
+        else:
+            rows = (n_pts // 2 - r).astype(int)
+            cols = np.arange(n_pts)
+            picked = amp[rows, cols].astype(float)
+            colmax = amp.max(axis=0).astype(float)
+            slack = colmax * 1e-12
+            if amp_is_reference:
+                slack = colmax * 1e-9 + 4 * RTOL * _fac(rec) * float(np.sum(np.abs(O.even_part(rec))))
+            good = picked >= colmax - slack
+            if not np.all(good):
+                j = int(np.argmin(good))
+                ok = False
+                why = ('entry %d = %r is the frequency of voice n=%d whose modulus %.6g is below the column maximum %.6g '
+                       '(voice n=%d)' % (j, float(res[j]), int(r[j]), float(picked[j]), float(colmax[j]),
+                                         n_pts // 2 - int(np.argmax(amp[:, j]))))
+    ctx.check(ok, 'maxfreq(%s).is-frequency-of-column-max[%s]' % (via, par), wit,
+              '%sdominant-frequency trace (record length %d, %s, dt=%r): %s' % (tag, n, kind, dt, why))
+    # (2) on-grid sinusoid inside [2nd harmonic, 3/4 Nyquist]: trace == k/(N dt) on the middle half
+    k = _harmonic(O.even_part(rec), 1e-6 if _fac(rec) > 1 else 1e-9)
+    lo, hi = O.harmonic_range(n_pts)
+    if k is None or not (lo <= k <= hi):
+        ctx.observe('maxfreq(%s):record-not-an-in-range-on-grid-sinusoid' % via)
+        return
+    f = k / (n_pts * dtf)
+    a, b = -(-n_pts // 4), (3 * n_pts) // 4
+    ok = res.shape == (n_pts,) and res.dtype.kind in 'fiu'
+    why = 'shape %s' % (res.shape,)
+    if ok:
+        mid = res[a:b].astype(float)
+        with np.errstate(invalid='ignore'):
+            bad = ~(np.abs(mid - f) <= freq_rtol * f)
+        if np.any(bad):
+            j = int(np.argmax(bad))
+            ok = False
+            why = 'sample %d reports %r (%d of %d middle-half samples differ)' % (a + j, float(mid[j]), int(bad.sum()), b - a)
+    ctx.check(ok, 'maxfreq(%s)==f.middle-half[%s]' % (via, par), wit,
+              '%ssinusoid at harmonic k=%d of N=%d (record length %d, %s, peak %.3g), dt=%r, f=k/(N dt)=%r: %s'
+              % (tag, k, n_pts, n, kind, float(np.max(np.abs(O.even_part(rec)))), dt, f, why))
 
 
 def _pre_transform(args, kwargs):
     acc = args[0] if args else kwargs.get('acc')
-    return _intake(acc)
+    interp = args[1] if len(args) > 1 else kwargs.get('interp', False)
+    rec, kind, skip = _intake(acc)
+    return rec, kind, skip, interp, sorted(kwargs)
 
 
 def _post_transform_factory(impl):
     def post(args, kwargs, result, pre):
         ctx = CTX
-        rec, kind, skip = pre
+        rec, kind, skip, interp, kw = pre
+        acc = args[0] if args else kwargs.get('acc')
+        if rec is not None:
+            ctx.check(_same_bits(acc, rec), 'argument-unchanged(%s)' % impl, lambda: _wit(impl, rec, kind, kw=kw),
+                      '%s modified its record argument (%s, length %d): %s' % (impl, kind, rec.size, _first_change(acc, rec)))
         if skip:
             ctx.observe('%s:%s' % (impl, skip))
             return
-        if not check_transform(ctx, impl, rec, kind, result):
+        if interp:
+            ctx.observe('%s:interp-option-outside-statement' % impl)
+            return
+        if not check_transform(ctx, impl, rec, kind, result, lambda: _wit(impl, rec, kind, kw=kw)):
             return
         REG.put(result, {'record': rec, 'kind': kind, 'impl': impl, 'derived': None})
         if impl == 'transform_w_scipy_fft':
@@ -260,121 +486,79 @@ def _post_transform_factory(impl):
                 return
             scale = float(np.sum(np.abs(O.even_part(rec))))
             ok, idx, e, a = tol.worst(np.asarray(result), np.asarray(other), scale=scale, rtol=RTOL * _fac(rec))
-            ctx.check(ok, 'implementations-agree[%s]' % par, lambda: _wit(impl, rec, kind),
-                      'transform and transform_w_scipy_fft differ on a record of length %d: cell %s |diff|=%.3g allowed %.3g'
-                      % (len(rec), idx, e, a))
+            ctx.check(ok, 'implementations-agree[%s]' % par, lambda: _wit(impl, rec, kind, kw=kw),
+                      'transform and transform_w_scipy_fft differ on a record of length %d (%s): cell %s |diff|=%.3g allowed %.3g'
+                      % (len(rec), kind, idx, e, a))
     return post
 
 
-def _post_itransform(args, kwargs, result, pre):
+def _pre_itransform(args, kwargs):
+    stock = args[0] if args else kwargs.get('stock')
+    return _snapshot(stock)
+
+
+def _post_itransform(args, kwargs, result, snap):
     ctx = CTX
     stock = args[0] if args else kwargs.get('stock')
     info = REG.get(stock)
-    if info is None or info.get('derived'):
+    if info is not None:
+        ctx.check(_same_bits(stock, snap), 'argument-unchanged(itransform)',
+                  lambda: _wit('itransform', info['record'], info['kind'], impl=info['impl'], derived=info.get('derived')),
+                  'itransform modified its argument: %s' % _first_change(stock, snap))
+    if info is None or info.get('derived') not in VALUE_PRESERVING:
         ctx.observe('itransform:input-not-a-monitored-transform')
         return
-    rec, kind = info['record'], info['kind']
-    n = len(rec)
-    par = _par(n)
-    n_pts = 2 * (n // 2)
-    target = O.inverse_target(rec)
-    peak = float(np.max(np.abs(O.even_part(rec))))
-    res = np.asarray(result)
-    ok = res.shape == (n_pts,) and res.dtype.kind == 'f'
-    e = a = float('nan')
-    idx = None
-    if ok:
-        ok, idx, e, a = tol.worst(res, target, scale=n_pts * peak, rtol=RTOL * _fac(rec))
-    ctx.check(ok, 'inverse==record-mean-nyquist[%s]' % par, lambda: _wit('itransform', rec, kind, impl=info['impl']),
-              'itransform(%s(record of length %d)) has shape %s dtype %s; worst sample %s |diff|=%.3g allowed %.3g '
-              '(target = record - mean - Nyquist component)' % (info['impl'], n, res.shape, res.dtype, idx, e, a))
-
-
-def check_maxfreq(ctx, via, rec, kind, dt, tifq, result, wit):
-    n = len(rec)
-    par = _par(n)
-    n_pts = 2 * (n // 2)
-    try:
-        dtf = float(dt)
-    except Exception:
-        dtf = float('nan')
-    if not (dtf > 0 and math.isfinite(dtf)):
-        ctx.observe('maxfreq(%s):dt-not-positive-finite' % via)
-        return
-    res = np.asarray(result)
-    amp = np.abs(np.asarray(tifq))
-    # (1) every entry is the grid frequency n/(N dt), n in 1..N/2, of a row that attains the column maximum
-    ok = res.shape == (n_pts,) and res.dtype.kind in 'fiu' and bool(np.all(np.isfinite(res)))
-    why = 'shape %s dtype %s' % (res.shape, res.dtype)
-    if ok:
-        nn = res.astype(float) * n_pts * dtf
-        r = np.rint(nn)
-        on_grid = (np.abs(nn - r) <= 1e-9 * np.maximum(1.0, np.abs(r))) & (r >= 1) & (r <= n_pts // 2)
-        if not np.all(on_grid):
-            j = int(np.argmin(on_grid))
-            ok = False
-            why = 'entry %d = %r is not a grid frequency n/(N dt), n in 1..%d (N=%d, dt=%r; n would be %r)' \
-                  % (j, float(res[j]), n_pts // 2, n_pts, dtf, float(nn[j]))
-        else:
-            rows = (n_pts // 2 - r).astype(int)
-            cols = np.arange(n_pts)
-            picked = amp[rows, cols]
-            colmax = amp.max(axis=0)
-            good = picked >= colmax * (1 - 1e-12)
-            if not np.all(good):
-                j = int(np.argmin(good))
-                ok = False
-                why = ('entry %d = %r is the frequency of voice n=%d whose modulus %.6g is below the column maximum %.6g '
-                       '(voice n=%d)' % (j, float(res[j]), int(r[j]), float(picked[j]), float(colmax[j]),
-                                         n_pts // 2 - int(np.argmax(amp[:, j]))))
-    ctx.check(ok, 'maxfreq(%s).is-frequency-of-column-max[%s]' % (via, par), wit,
-              'dominant-frequency trace (len %d, dt=%r): %s' % (n, dtf, why))
-    # (2) on-grid sinusoid inside [2nd harmonic, 3/4 Nyquist]: trace == k/(N dt) on the middle half
-    k = _harmonic(O.even_part(rec))
-    lo, hi = O.harmonic_range(n_pts)
-    if k is None or not (lo <= k <= hi):
-        ctx.observe('maxfreq(%s):record-not-an-in-range-on-grid-sinusoid' % via)
-        return
-    f = k / (n_pts * dtf)
-    a, b = -(-n_pts // 4), (3 * n_pts) // 4
-    ok = res.shape == (n_pts,) and res.dtype.kind in 'fiu'
-    why = 'shape %s' % (res.shape,)
-    if ok:
-        mid = res[a:b].astype(float)
-        with np.errstate(invalid='ignore'):
-            bad = ~(np.abs(mid - f) <= RTOL_FREQ * f)
-        if np.any(bad):
-            j = int(np.argmax(bad))
-            ok = False
-            why = 'sample %d reports %r (%d of %d middle-half samples differ)' % (a + j, float(mid[j]), int(bad.sum()), b - a)
-    ctx.check(ok, 'maxfreq(%s)==f.middle-half[%s]' % (via, par), wit,
-              'sinusoid at harmonic k=%d of N=%d (record length %d), dt=%r, f=k/(N dt)=%r: %s' % (k, n_pts, n, dtf, f, why))
+    check_inverse(ctx, info['record'], info['kind'], info['impl'], info.get('derived'), result)
 
 
 def _pre_maxfreq_asig(args, kwargs):
     asig = args[0] if args else kwargs.get('asig')
-    return hasattr(asig, 'swtf')
+    had = hasattr(asig, 'swtf')
+    return had, _snapshot(getattr(asig, 'values', None)), (_snapshot(asig.swtf) if had else None), \
+        _kind(getattr(asig, 'values', None)), (asig.swtf if had else None)
 
 
-def _post_maxfreq_asig(args, kwargs, result, had_swtf):
+def _post_maxfreq_asig(args, kwargs, result, pre):
     ctx = CTX
+    had_swtf, vals0, swtf0, vkind, swtf_obj = pre
     asig = args[0] if args else kwargs.get('asig')
-    rec, kind, skip = _intake(asig.values)
+    if vals0 is None:
+        ctx.observe('maxfreq(asig):unconvertible-input')
+        return
+    dt = asig.dt
+    wit = lambda: _wit('get_max_stockwell_freq', vals0, vkind, dt=dt, dt_form=_dt_form(dt), preset_swtf=bool(had_swtf))  # noqa
+    pure = _same_bits(asig.values, vals0) and (not had_swtf or _same_bits(asig.swtf, swtf0))
+    ctx.check(pure, 'argument-unchanged(get_max_stockwell_freq)', wit,
+              'get_max_stockwell_freq modified the values or the attached swtf of its signal object: %s'
+              % (_first_change(asig.values, vals0) if not _same_bits(asig.values, vals0) else 'swtf changed'))
+    rec, kind, skip = _intake(vals0)
     if skip:
         ctx.observe('maxfreq(asig):%s' % skip)
         return
-    swtf = getattr(asig, 'swtf', None)
-    info = REG.get(swtf)
-    if info is None or info.get('derived') or core.digest(O.even_part(info['record'])) != core.digest(O.even_part(rec)):
-        # a time-frequency array attached by the caller that is not a monitored transform of asig.values
-        ctx.observe('maxfreq(asig):swtf-not-a-monitored-transform-of-values')
-        return
-    dt = asig.dt
-    check_maxfreq(ctx, 'asig', rec, kind, dt, swtf, result,
-                  lambda: _wit('get_max_stockwell_freq', rec, kind, dt=dt, preset_swtf=bool(had_swtf)))
+    # the object's cache is never the yardstick: judge against the reference transform of the call-entry values
+    ref, _ = _oracle(O.even_part(rec))
+    if had_swtf:
+        info = REG.get(swtf_obj)         # the object attached at call entry
+        current = info is not None and info.get('derived') in VALUE_PRESERVING and \
+            core.digest(O.even_part(info['record'])) == core.digest(O.even_part(rec))
+        if not current:
+            # an swtf attached before the call that is not a monitored transform of the current values (e.g. kept by
+            # reset_values): object history, outside the quantifier of C15 -> counted, with an informational comparison
+            ctx.observe('maxfreq(asig):preset-swtf-not-the-transform-of-current-values')
+            probe = core.Ctx(PROP_ID, ctx.tier, 0, 0, 1)
+            check_maxfreq(probe, 'asig', rec, kind, dt, np.abs(ref), result, wit, amp_is_reference=True)
+            if probe.violations:
+                ctx.observe('maxfreq(asig):stale-swtf-trace-differs-from-current-record')
+            return
+    check_maxfreq(ctx, 'asig', rec, kind, dt, np.abs(ref), result, wit, amp_is_reference=True)
 
 
-def _post_maxfreq_tifq(args, kwargs, result, pre):
+def _pre_maxfreq_tifq(args, kwargs):
+    tifq = args[0] if args else kwargs.get('tifq_values')
+    return _snapshot(tifq)
+
+
+def _post_maxfreq_tifq(args, kwargs, result, snap):
     ctx = CTX
     tifq = args[0] if args else kwargs.get('tifq_values')
     dt = args[1] if len(args) > 1 else kwargs.get('dt')
@@ -383,8 +567,11 @@ def _post_maxfreq_tifq(args, kwargs, result, pre):
         ctx.observe('maxfreq(tifq):input-of-unknown-provenance')
         return
     rec, kind = info['record'], info['kind']
-    check_maxfreq(ctx, 'tifq', rec, kind, dt, tifq, result,
-                  lambda: _wit('get_max_tifq_vals_freq', rec, kind, dt=dt, impl=info['impl'], derived=info.get('derived')))
+    wit = lambda: _wit('get_max_tifq_vals_freq', rec, kind, dt=dt, dt_form=_dt_form(dt), impl=info['impl'],  # noqa
+                       derived=info.get('derived'))
+    ctx.check(_same_bits(tifq, snap), 'argument-unchanged(get_max_tifq_vals_freq)', wit,
+              'get_max_tifq_vals_freq modified its time-frequency argument: %s' % _first_change(tifq, snap))
+    check_maxfreq(ctx, 'tifq', rec, kind, dt, np.abs(np.asarray(snap)), result, wit)
 
 
 def install(ctx):
@@ -398,19 +585,35 @@ def install(ctx):
     for impl in IMPLS:
         w = attach.wrap(sw, impl, _post_transform_factory(impl), pre=_pre_transform)
         w.__vf_c15__ = True
-    attach.wrap(sw, 'itransform', _post_itransform)
+    attach.wrap(sw, 'itransform', _post_itransform, pre=_pre_itransform)
     attach.wrap(sw, 'get_max_stockwell_freq', _post_maxfreq_asig, pre=_pre_maxfreq_asig)
-    attach.wrap(sw, 'get_max_tifq_vals_freq', _post_maxfreq_tifq)
+    attach.wrap(sw, 'get_max_tifq_vals_freq', _post_maxfreq_tifq, pre=_pre_maxfreq_tifq)
 
 
 # ------------------------------------------------------------------------------------------------------ driver
-def _call(ctx, clause, wit, fn, *a):
+def _call(ctx, clause, wit, fn, *a, **kw):
     """Call a real function; an exception on in-domain input is a violation of `clause`."""
     try:
-        return fn(*a)
+        return fn(*a, **kw)
     except Exception as ex:   # noqa
         ctx.exception(clause, wit() if callable(wit) else wit, ex)
         return None
+
+
+def _transform_form(f, cont, form):
+    """The same call in its positional / keyword spellings."""
+    if form == 0:
+        return f(cont)
+    if form == 1:
+        return f(acc=cont)
+    if form == 2:
+        return f(cont, False)
+    return f(cont, interp=False)
+
+
+def _purity(ctx, obj, pristine, wit, what):
+    ctx.check(_same_bits(obj, pristine), 'argument-unchanged(sequence)', wit,
+              '%s changed over the call sequence: %s' % (what, _first_change(obj, pristine)))
 
 
 def drive_linearity(ctx, eqsig, impl, x, y, a, b):
@@ -433,91 +636,284 @@ def drive_linearity(ctx, eqsig, impl, x, y, a, b):
               % (impl, impl, impl, a, b, len(x), idx, e, al))
 
 
-def drive_record(ctx, eqsig, cont, dt, impl_for_inverse, use_abs):
-    """Both implementations, the inverse of one of them, the dominant-frequency helper on one of them."""
+STOCK_FORMS = (None, 'F', 'readonly', 'list')
+TIFQ_FORMS = (None, 'abs', 'abs32', 'abs-readonly', 'F', 'readonly')
+
+
+def drive_record(ctx, eqsig, cont, dt, form):
+    """ONE argument object through both implementations (call spellings rotate with `form`), the inverse of one result,
+    the dominant-frequency helper on the other, each in a rotating derived form; the object is compared bit-for-bit with its
+    state before the first call at the end."""
     sw = eqsig.stockwell
     kind = _kind(cont)
     rec = np.array(cont)
     par = _par(len(rec))
-
-    def fresh():
-        return _container(rec, kind)
-    s1 = _call(ctx, 'transform==definition[%s]' % par, lambda: _wit('transform', rec, kind), sw.transform, fresh())
+    s1 = _call(ctx, 'transform==definition[%s]' % par, lambda: _wit('transform', rec, kind), _transform_form, sw.transform,
+               cont, form % 4)
     s2 = _call(ctx, 'transform_w_scipy_fft==definition[%s]' % par, lambda: _wit('transform_w_scipy_fft', rec, kind),
-               sw.transform_w_scipy_fft, fresh())
-    s = s1 if impl_for_inverse == 'transform' else s2
-    if s is None:
-        return
-    _call(ctx, 'inverse==record-mean-nyquist[%s]' % par, lambda: _wit('itransform', rec, kind, impl=impl_for_inverse),
-          sw.itransform, s)
-    other = s2 if s is s1 else s1
-    if other is not None:
-        t = other
-        if use_abs:
-            t = np.abs(other)
-            remember(t, other)
-        _call(ctx, 'maxfreq(tifq).is-frequency-of-column-max[%s]' % par,
-              lambda: _wit('get_max_tifq_vals_freq', rec, kind, dt=dt, impl=IMPLS[0] if other is s1 else IMPLS[1],
-                           derived='abs' if use_abs else None), sw.get_max_tifq_vals_freq, t, dt)
-
-
-def drive_sinusoid(ctx, eqsig, x, dts, impl, use_abs, as_list=False):
-    """One sinusoid record through get_max_stockwell_freq(AccSignal) and get_max_tifq_vals_freq for every dt."""
-    sw = eqsig.stockwell
-    par = _par(len(x))
-    kind = _kind(x)
-    s = _call(ctx, '%s==definition[%s]' % (impl, par), lambda: _wit(impl, x, kind), getattr(sw, impl), x.copy())
-    t = s
+               _transform_form, sw.transform_w_scipy_fft, cont, (form // 4) % 4)
+    s3 = _call(ctx, 'transform==definition[%s]' % par, lambda: _wit('transform', rec, kind), sw.transform, cont)
+    if s3 is not None:      # third call on the same object: judged against the values the argument had BEFORE the first call
+        check_transform(ctx, 'transform', rec, kind, s3, lambda: _wit('record-sequence', rec, kind, dt=dt, form=form),
+                        'third call on one argument object, judged against its values before the first call: ')
+    _purity(ctx, cont, rec, lambda: _wit('record-sequence', rec, kind, dt=dt, form=form), 'the record argument (%s)' % kind)
+    inv_impl = IMPLS[form % 2]
+    s, other = (s1, s2) if inv_impl == 'transform' else (s2, s1)
     if s is not None:
-        _call(ctx, 'inverse==record-mean-nyquist[%s]' % par, lambda: _wit('itransform', x, kind, impl=impl), sw.itransform, s)
-    if s is not None and use_abs:
-        t = np.abs(s)
-        remember(t, s)
-    for dt in dts:
-        wit = lambda: _wit('get_max_stockwell_freq', x, kind, dt=dt, preset_swtf=False)  # noqa
+        how = STOCK_FORMS[(form // 2) % len(STOCK_FORMS)]
+        t = derive(s, how)
+        remember(t, s, how)
+        wit = lambda: _wit('itransform', rec, kind, impl=inv_impl, derived=how)   # noqa
+        if (form // 8) % 2:
+            _call(ctx, 'inverse==record-mean-nyquist[%s]' % par, wit, sw.itransform, stock=t)
+        else:
+            _call(ctx, 'inverse==record-mean-nyquist[%s]' % par, wit, sw.itransform, t)
+    if other is None:
+        other = s3
+    if other is not None:
+        how = TIFQ_FORMS[(form // 3) % len(TIFQ_FORMS)]
+        t = derive(other, how)
+        remember(t, other, how)
+        wit = lambda: _wit('get_max_tifq_vals_freq', rec, kind, dt=dt, dt_form=_dt_form(dt),   # noqa
+                           impl=IMPLS[1] if other is s2 else IMPLS[0], derived=how)
+        if (form // 5) % 2:
+            _call(ctx, 'maxfreq(tifq).is-frequency-of-column-max[%s]' % par, wit, sw.get_max_tifq_vals_freq, tifq_values=t, dt=dt)
+        else:
+            _call(ctx, 'maxfreq(tifq).is-frequency-of-column-max[%s]' % par, wit, sw.get_max_tifq_vals_freq, t, dt)
+
+
+def drive_back_to_back(ctx, eqsig, cont, cont2, dt, tform=None):
+    """Process-wide state: the record `cont` goes through every function, then a second record of the same length does,
+    while the first results are still held; then every FIRST result is judged again by the same clauses, and the first
+    transform is used once more (online monitors)."""
+    sw = eqsig.stockwell
+    kind = _kind(cont)
+    rec = np.array(cont)
+    rec2 = np.array(cont2)
+    par = _par(len(rec))
+    wit = lambda: _wit('back-to-back', rec, kind, record2=rec2, container2=_kind(cont2), dt=dt, dt_form=_dt_form(dt),  # noqa
+                       tform=tform)
+    for impl in IMPLS:
+        f = getattr(sw, impl)
+        clause = '%s==definition[%s]' % (impl, par)
+        s1 = _call(ctx, clause, wit, f, cont)
+        if s1 is None:
+            continue
+        inv1 = _call(ctx, 'inverse==record-mean-nyquist[%s]' % par, wit, sw.itransform, s1)
+        t1 = derive(s1, tform)
+        remember(t1, s1, tform)
+        mf1 = _call(ctx, 'maxfreq(tifq)==f.middle-half[%s]' % par, wit, sw.get_max_tifq_vals_freq, t1, dt)
+        t1_bits = _snapshot(t1)
+        # -- the second record, same shape, same functions
+        s2 = _call(ctx, clause, wit, f, cont2)
+        if s2 is not None:
+            _call(ctx, 'inverse==record-mean-nyquist[%s]' % par, wit, sw.itransform, s2)
+            t2 = derive(s2, tform)
+            remember(t2, s2, tform)
+            _call(ctx, 'maxfreq(tifq)==f.middle-half[%s]' % par, wit, sw.get_max_tifq_vals_freq, t2, dt)
+        # -- the FIRST results again
+        check_transform(ctx, impl, rec, kind, s1, wit, AFTER)
+        if inv1 is not None:
+            check_inverse(ctx, rec, kind, impl, None, inv1, wit, AFTER)
+        if mf1 is not None:
+            check_maxfreq(ctx, 'tifq', rec, kind, dt, np.abs(np.asarray(t1_bits)), mf1, wit, AFTER)
+        _call(ctx, 'inverse==record-mean-nyquist[%s]' % par, wit, sw.itransform, s1)
+        _call(ctx, 'maxfreq(tifq)==f.middle-half[%s]' % par, wit, sw.get_max_tifq_vals_freq, s1, dt)
+    # -- the same through signal objects
+    try:
+        a1 = eqsig.AccSignal(cont, dt)
+        m1 = sw.get_max_stockwell_freq(a1)
+        a2 = eqsig.AccSignal(cont2, dt)
+        sw.get_max_stockwell_freq(a2)
+        v1, k1, skip = _intake(a1.values)
+        if not skip:
+            ref, _ = _oracle(O.even_part(v1))
+            check_maxfreq(ctx, 'asig', v1, k1, dt, np.abs(ref), m1, wit, AFTER, amp_is_reference=True)
+        sw.get_max_stockwell_freq(a1)            # cached swtf, judged online against the reference
+    except Exception as ex:   # noqa
+        ctx.exception('maxfreq(asig)==f.middle-half[%s]' % par, wit(), ex)
+    _purity(ctx, cont, rec, wit, 'the first record (%s)' % kind)
+    _purity(ctx, cont2, rec2, wit, 'the second record')
+
+
+def drive_sinusoid(ctx, eqsig, cont, dts, impl, tform):
+    """One sinusoid record (one argument object) through transform, inverse, get_max_stockwell_freq(AccSignal) and
+    get_max_tifq_vals_freq for every dt."""
+    sw = eqsig.stockwell
+    kind = _kind(cont)
+    rec = np.array(cont)
+    par = _par(len(rec))
+    s = _call(ctx, '%s==definition[%s]' % (impl, par), lambda: _wit(impl, rec, kind), getattr(sw, impl), cont)
+    t = None
+    if s is not None:
+        _call(ctx, 'inverse==record-mean-nyquist[%s]' % par, lambda: _wit('itransform', rec, kind, impl=impl), sw.itransform, s)
+        t = derive(s, tform)
+        remember(t, s, tform)
+    for i, dt in enumerate(dts):
+        wit = lambda: _wit('get_max_stockwell_freq', rec, kind, dt=dt, dt_form=_dt_form(dt), preset_swtf=False)  # noqa
         try:
-            asig = eqsig.AccSignal(x.tolist() if as_list else x.copy(), dt)
-            sw.get_max_stockwell_freq(asig)
+            asig = eqsig.AccSignal(cont, dt)
+            if i % 2:
+                sw.get_max_stockwell_freq(asig=asig)
+            else:
+                sw.get_max_stockwell_freq(asig)
         except Exception as ex:
             ctx.exception('maxfreq(asig)==f.middle-half[%s]' % par, wit(), ex)
         if t is not None:
-            _call(ctx, 'maxfreq(tifq)==f.middle-half[%s]' % par,
-                  lambda: _wit('get_max_tifq_vals_freq', x, kind, dt=dt, impl=impl, derived='abs' if use_abs else None),
-                  sw.get_max_tifq_vals_freq, t, dt)
+            wit2 = lambda: _wit('get_max_tifq_vals_freq', rec, kind, dt=dt, dt_form=_dt_form(dt), impl=impl, derived=tform)  # noqa
+            if i % 3 == 2:
+                _call(ctx, 'maxfreq(tifq)==f.middle-half[%s]' % par, wit2, sw.get_max_tifq_vals_freq, tifq_values=t, dt=dt)
+            else:
+                _call(ctx, 'maxfreq(tifq)==f.middle-half[%s]' % par, wit2, sw.get_max_tifq_vals_freq, t, dt)
+    _purity(ctx, cont, rec, lambda: _wit('sinusoid-sequence', rec, kind, dts=[float(d) for d in dts], impl=impl, tform=tform),
+            'the sinusoid record (%s)' % kind)
 
 
-def sinusoid(rng, length, k):
-    """Stationary sinusoid at harmonic k of the even-truncated length; random phase, amplitude 10^U(-2,2) or 1."""
+def drive_history(ctx, eqsig, x1, x2, dt, dt2, order):
+    """Same-object history on AccSignal: twins from one caller array and from each other's values, repeated calls on the
+    cached swtf, reads of other cached quantities in between, the caller-presets-swtf idiom, reset_values (stale swtf:
+    observation) and the re-preset idiom (judged against the new values)."""
+    sw = eqsig.stockwell
+    p1, p2 = x1.copy(), x2.copy()
+    par = _par(len(x1))
+    wit = lambda: {'fn': 'history', 'record': p1, 'record2': p2, 'container': 'ndarray:float64', 'dt': dt, 'dt2': dt2,  # noqa
+                   'order': list(order)}
+    try:
+        a = eqsig.AccSignal(x1, dt)
+        twin = eqsig.AccSignal(x1, dt2)              # twin from the same caller array
+        sw.get_max_stockwell_freq(a)
+        for step in order:
+            if step == 'repeat':
+                sw.get_max_stockwell_freq(asig=a)    # cached swtf
+            elif step == 'twin':
+                sw.get_max_stockwell_freq(twin)
+            elif step == 'read':
+                for name in ('time', 'npts', 'fa_spectrum', 'fa_frequencies'):
+                    try:
+                        getattr(a, name)
+                    except Exception:   # noqa  (not this property's business)
+                        ctx.observe('history:read-of-%s-raised' % name)
+            elif step == 'clone':
+                b = eqsig.AccSignal(a.values, dt2)   # twin from the other object's values
+                sw.get_max_stockwell_freq(b)
+                sw.get_max_stockwell_freq(a)
+            elif step == 'preset':
+                c = eqsig.AccSignal(x2, dt)
+                c.swtf = sw.transform(c.values)      # idiom of plot_stock: the caller attaches the transform
+                sw.get_max_stockwell_freq(c)
+        a.reset_values(x2)
+        sw.get_max_stockwell_freq(a)                 # swtf kept by reset_values: observation, not judged
+        a.swtf = sw.transform(a.values)
+        sw.get_max_stockwell_freq(a)                 # judged against the new values
+        sw.get_max_stockwell_freq(twin)              # the twin never changed
+    except Exception as ex:   # noqa
+        ctx.exception('maxfreq(asig)==f.middle-half[%s]' % par, wit(), ex)
+    _purity(ctx, x1, p1, wit, 'the caller array the twin objects were built from')
+    _purity(ctx, x2, p2, wit, 'the caller array passed to reset_values')
+
+
+def drive_out_of_domain(ctx, eqsig, rng):
+    """Forms outside the statement or rejected by the library: counted by the monitors / here, never judged."""
+    sw = eqsig.stockwell
+    for v, name in ((5.0, 'python-scalar'), (np.array(2.0), '0-d-array'), (np.ones(1), 'length-1')):
+        for impl in IMPLS:
+            try:
+                getattr(sw, impl)(v)
+                ctx.observe('out-of-domain:%s-accepted' % name)
+            except Exception:   # noqa
+                ctx.observe('out-of-domain:%s-rejected' % name)
+    for n in (2, 3):
+        for impl in IMPLS:
+            try:
+                getattr(sw, impl)(rng.normal(size=n))
+            except Exception:   # noqa
+                ctx.observe('out-of-domain:length-%d-rejected' % n)
+    x = rng.normal(size=12)
+    try:
+        sw.transform(x, interp=True)
+        sw.transform_w_scipy_fft(x, True)
+        sw.transform(x + 1j * x)
+    except Exception:   # noqa
+        ctx.observe('out-of-domain:interp-or-complex-rejected')
+    try:
+        s = sw.transform(x)
+        lst = np.abs(s).tolist()
+        sw.get_max_tifq_vals_freq(lst, 0.01)
+        ctx.observe('out-of-domain:nested-list-tifq-accepted')
+    except Exception:   # noqa
+        ctx.observe('out-of-domain:nested-list-tifq-rejected')
+
+
+def sinusoid(rng, length, k, amp=None):
+    """Stationary sinusoid at harmonic k of the even-truncated length; random phase; amplitude 1, 10^U(-2,2) or 10^U(-12,12)."""
     n_pts = 2 * (length // 2)
     ph = rng.uniform(0, 2 * np.pi)
-    amp = 1.0 if rng.random() < 0.5 else 10.0 ** rng.uniform(-2, 2)
+    if amp is None:
+        r = rng.random()
+        amp = 1.0 if r < 0.3 else (10.0 ** rng.uniform(-2, 2) if r < 0.5 else 10.0 ** rng.uniform(-12, 12))
     j = np.arange(length)
     return amp * np.sin(2 * np.pi * ((j * k) % n_pts) / n_pts + ph)
 
 
+def sinusoid_container(rng, x, sel):
+    """The sinusoid in one of the container forms (float32 loses nothing the statement needs; ints would quantise)."""
+    sel = sel % 10
+    if sel < 4:
+        return x
+    if sel == 4:
+        return x.astype(np.float32)
+    if sel == 5:
+        return [float(v) for v in x]
+    if sel == 6:
+        buf = np.zeros(2 * len(x))
+        buf[::2] = x
+        return buf[::2]
+    if sel == 7:
+        y = x.copy()
+        y.flags.writeable = False
+        return y
+    if sel == 8:
+        return np.array(x[::-1])[::-1]
+    return tuple(float(v) for v in x)
+
+
 def draw_dts(rng, idx, count):
     """count time steps cycling deterministically through the nice decimals and the 1/k floor-trap list (so that every
-    listed value meets many lengths), plus 1/k for random integer k and log-uniform draws."""
+    listed value meets many lengths), plus 1/k for random integer k, log-uniform draws over three ranges, and the scalar
+    forms Python int, numpy float64 and numpy float32."""
     out = []
     for c in range(count):
-        sel = c % 6
+        sel = c % 8
         if sel == 0:
-            out.append(float(gen.NICE_DT[(idx + c // 6) % len(gen.NICE_DT)]))
+            out.append(float(gen.NICE_DT[(idx + c // 8) % len(gen.NICE_DT)]))
         elif sel == 1:
-            out.append(1.0 / gen.RECIP_K[(idx + c // 6) % len(gen.RECIP_K)])
+            out.append(1.0 / gen.RECIP_K[(idx + c // 8) % len(gen.RECIP_K)])
         elif sel == 2:
-            out.append(float(10.0 ** rng.uniform(-4, 1)))
+            out.append(float(10.0 ** rng.uniform(-9, 3)))
         elif sel == 3:
-            out.append(float(gen.NICE_DT[(3 * idx + 5 + c // 6) % len(gen.NICE_DT)]))
+            out.append(float(gen.NICE_DT[(3 * idx + 5 + c // 8) % len(gen.NICE_DT)]))
         elif sel == 4:
             out.append(1.0 / int(rng.integers(2, 1001)))
-        else:
+        elif sel == 5:
             out.append(gen.dt(rng, 'log'))
+        elif sel == 6:
+            out.append(float(10.0 ** rng.uniform(-4, 1)))
+        else:
+            form = (idx + c // 8) % 4
+            if form == 0:
+                out.append(int(rng.integers(1, 4)))
+            elif form == 1:
+                out.append(np.float64(gen.dt(rng)))
+            elif form == 2:
+                out.append(np.float32(gen.dt(rng)))
+            else:
+                out.append(float(10.0 ** rng.uniform(-9, 3)))
     return out
 
 
 CLASSES_A = ['noise', 'quake', 'walk', 'chirp', 'impulse', 'plateau', 'beat', 'step', 'hat', 'alt', 'zeropad', 'intnoise',
-             'sine', 'const']
+             'sine', 'const', 'flat-ends', 'extreme-first', 'extreme-last', 'sign-change-end', 'offset', 'micro', 'macro']
+NARROW = ('int32', 'int16', 'int8', 'uint8', 'uint16')
 
 
 def build_items(tier):
@@ -532,27 +928,31 @@ def build_items(tier):
     for n in big:
         items.append(('sin-sampled', (n,)))
         items.append(('sin-sampled', (n + 1 if n < LEN_MAX else n - 1,)))
-    # -- definition at sampled lengths above 64
+    # -- definition at lengths above 64: around every power of two, a few others, random ones
     if quick:
-        fixed = [65, 66, 96, 97, 100, 101, 127, 128, 129, 130, 191, 192, 200, 201, 255, 256]
+        fixed = [65, 66, 96, 97, 100, 101, 127, 128, 129, 130, 191, 192, 200, 201, 255, 256, 257]
+        single = [511, 512, 513, 1023, 1024]
         n_random = 32
     else:
         fixed = [65, 66, 100, 101, 127, 128, 129, 255, 256, 257, 300, 301, 383, 384, 500, 501, 511, 512, 513, 640, 641,
                  767, 768, 999, 1000, 1001, 1021, 1022, 1023, 1024]
-        n_random = 40
+        single = []
+        n_random = 60
     for n in fixed:
         for c in range(2):
             items.append(('def', (n, c)))
+    for i, n in enumerate(single):
+        items.append(('def', (n, i)))
     for c in range(n_random):
         items.append(('def', (None, c)))               # random length 65..256 (quick) / 65..1024 (thorough)
     # -- every harmonic for selected N (and the odd length N+1)
-    all_k_n = [16, 32, 64, 100, 128] if quick else [16, 32, 50, 64, 72, 100, 128, 150, 200, 256, 300, 400, 512, 640]
+    all_k_n = [16, 32, 64, 100, 128] if quick else [16, 32, 50, 64, 72, 100, 128, 150, 200, 256, 300, 400, 512, 640, 750, 1000]
     for n in all_k_n:
         lo, hi = O.harmonic_range(n)
         for k in range(lo, hi + 1):
             items.append(('sin-allk', (n, k)))
             items.append(('sin-allk', (n + 1, k)))
-    # -- every even N and the odd N+1, harmonics {2, kmax, random}
+    # -- every even N and the odd N+1, harmonics {2, kmax, random}, back-to-back pair and one object history
     top = 260 if quick else 520
     for n in range(16, top + 1, 2):
         items.append(('sin-everyN', (n,)))
@@ -566,30 +966,90 @@ def build_items(tier):
     def cost(it):
         kind, p = it
         n = p[0] if p[0] is not None else (160 if quick else 550)
-        return float(n) ** 3 * {'def': 3.0, 'sin-everyN': 3.0}.get(kind, 1.0)
+        return float(n) ** 3 * {'def': 4.0, 'sin-everyN': 4.0}.get(kind, 1.0)
     items.sort(key=cost, reverse=True)
     return items
 
 
-def _record_for(rng, n, c):
-    cls = CLASSES_A[c % len(CLASSES_A)]
-    x, cls = gen.record(rng, n, cls=cls)
-    # container: mostly float64 arrays; the others take turns
-    r = rng.random()
-    if r < 0.55:
-        cont, ck = x, 'f64'
-    elif r < 0.7:
-        cont, ck = [float(v) for v in x], 'list'
-    elif r < 0.8:
-        cont, ck = tuple(float(v) for v in x), 'tuple'
-    elif r < 0.9:
-        cont, ck = x.astype(np.float32), 'f32'
+def make_record(rng, n, cls):
+    """gen.record plus the classes of the audit list (plateaus at the ends, extreme at the first/last sample, sign change at
+    the last step, small signal on a large offset, micro / macro amplitudes)."""
+    if cls in gen.RECORD_CLASSES:
+        amp = 10.0 ** rng.uniform(-12, 12) if rng.random() < 0.15 else None
+        x, _ = gen.record(rng, n, cls=cls, amp=amp)
+        return x
+    x = rng.normal(size=n)
+    if cls == 'flat-ends':
+        a = int(rng.integers(1, max(2, n // 3 + 1)))
+        b = int(rng.integers(1, max(2, n // 3 + 1)))
+        x[:a] = x[a - 1]
+        x[n - b:] = x[n - b]
+    elif cls == 'extreme-first':
+        x[0] = 3.0 * np.max(np.abs(x)) * rng.choice([-1.0, 1.0])
+    elif cls == 'extreme-last':
+        x[-1] = 3.0 * np.max(np.abs(x)) * rng.choice([-1.0, 1.0])
+    elif cls == 'sign-change-end':
+        x[-1] = -np.sign(x[-2]) * (abs(x[-1]) + 0.1)
+    elif cls == 'offset':
+        x = x * 10.0 ** rng.uniform(-6, 0) + rng.choice([-1.0, 1.0]) * 10.0 ** rng.uniform(0, 6)
+    elif cls == 'micro':
+        x = x * 10.0 ** rng.uniform(-12, -9)
+    elif cls == 'macro':
+        x = x * 10.0 ** rng.uniform(9, 12)
     else:
-        if np.all(x == np.round(x)) and np.max(np.abs(x)) < 2 ** 53:
-            cont, ck = x.astype(np.int64), 'i64'
+        raise ValueError(cls)
+    return x
+
+
+def to_container(rng, x, sel):
+    """(container, short name). sel cycles through every dtype / container / layout form of the audit list."""
+    sel = sel % 20
+    if sel in (0, 1, 2, 3, 4, 5):
+        return x, 'f64'
+    if sel == 6:
+        return [float(v) for v in x], 'list'
+    if sel == 7:
+        return tuple(float(v) for v in x), 'tuple'
+    if sel == 8:
+        return x.astype(np.float32), 'f32'
+    if sel == 9:       # list of Python ints
+        return [int(v) for v in np.round(_to_range(x, 1000.0))], 'list-int'
+    if sel == 10:      # mixed list: ints at the even positions
+        y = _to_range(x, 50.0)
+        return [int(round(v)) if i % 2 == 0 else float(v) for i, v in enumerate(y)], 'list-mixed'
+    if sel == 11:
+        return np.round(_to_range(x, 2.0 ** 40)).astype(np.int64), 'i64'
+    if sel in (12, 13, 14):
+        dtp = np.dtype(NARROW[int(rng.integers(len(NARROW)))])
+        info = np.iinfo(dtp)
+        if info.min == 0:
+            lo, hi = float(np.min(x)), float(np.max(x))
+            y = (x - lo) / (hi - lo) * info.max if hi > lo else np.full(len(x), float(info.max))
         else:
-            cont, ck = x, 'f64'
-    return cont, cls, ck
+            y = _to_range(x, float(info.max))
+        return np.clip(np.round(y), info.min, info.max).astype(dtp), str(dtp)      # fills the dtype's range
+    if sel == 15:
+        buf = np.zeros(2 * len(x))
+        buf[::2] = x
+        return buf[::2], 'f64-strided'
+    if sel == 16:
+        return np.array(x[::-1])[::-1], 'f64-reversed'
+    if sel == 17:
+        y = x.copy()
+        y.flags.writeable = False
+        return y, 'f64-readonly'
+    if sel == 18:
+        y = x.astype(np.float32)
+        y.flags.writeable = False
+        return y, 'f32-readonly'
+    buf = np.zeros(3 * len(x), dtype=np.int16)
+    buf[::3] = np.round(_to_range(x, 32000.0)).astype(np.int16)
+    return buf[::3], 'i16-strided'
+
+
+def _to_range(x, top):
+    m = float(np.max(np.abs(x)))
+    return x / m * top if m > 0 else x * 0.0
 
 
 def run_item(ctx, eqsig, rng, idx, item):
@@ -599,22 +1059,28 @@ def run_item(ctx, eqsig, rng, idx, item):
         n, c = p
         if n is None:
             n = int(rng.integers(65, (257 if quick else 1025)))
-        cont, cls, ck = _record_for(rng, n, c)
-        dt = gen.dt(rng)
-        impl_inv = IMPLS[(idx + c) % 2]
-        use_abs = bool((idx // 2 + c) % 2)
+        cls = CLASSES_A[c % len(CLASSES_A)]
+        x = make_record(rng, n, cls)
+        cont, ck = to_container(rng, x, idx + c // len(CLASSES_A))
+        dt = draw_dts(rng, idx, 8)[idx % 8]
         rec = np.array(cont)
-        ctx.case(core.digest(rec, ck, dt, 'def'), nontrivial=len(set(rec.tolist())) > 1, cls='def-%s-%s-%s' % (cls, ck, _par(n)),
-                 sample={'fn': 'transform+transform_w_scipy_fft+itransform+get_max_tifq_vals_freq', 'n': n, 'class': cls,
-                         'container': ck, 'dt': dt, 'head': rec[:6]})
-        drive_record(ctx, eqsig, cont, dt, impl_inv, use_abs)
-        # linearity on float64 records: every case up to length 64, every second one above
+        ctx.case(core.digest(rec, ck, float(dt), 'def'), nontrivial=len(set(rec.tolist())) > 1,
+                 cls='def-%s-%s-%s' % (cls, ck, _par(n)),
+                 sample={'fn': 'transform+transform_w_scipy_fft+itransform+get_max_tifq_vals_freq, then a second record',
+                         'n': n, 'class': cls, 'container': ck, 'dt': float(dt), 'head': rec[:6]})
+        drive_record(ctx, eqsig, cont, dt, idx)
+        ycls = ['noise', 'quake', 'walk', 'chirp'][int(rng.integers(4))]
+        y, _ = gen.record(rng, n, cls=ycls)
+        if idx % 3 == 0:
+            y = y * float(np.max(np.abs(rec.astype(float))) or 1.0)      # same scale as the first record
+        drive_back_to_back(ctx, eqsig, cont, y, dt, TIFQ_FORMS[idx % len(TIFQ_FORMS)])
+        # linearity on float64 records: every second case up to length 64, every case above
         if n <= 64 and c % 2 == 0 or n > 64:
-            x = np.asarray(rec, dtype=float)
-            y, _ = gen.record(rng, n, cls=['noise', 'quake', 'walk', 'chirp'][int(rng.integers(4))])
+            xf = np.asarray(rec, dtype=float)
             ab = [(2.0, -0.5), (1.0, 1.0), (float(rng.normal()), float(rng.normal())), (1024.0, 0.0),
                   (float(10.0 ** rng.uniform(-3, 3)), -float(10.0 ** rng.uniform(-3, 3)))][int(rng.integers(5))]
-            drive_linearity(ctx, eqsig, IMPLS[(idx // 3) % 2], x, y, ab[0], ab[1])
+            y2 = y if idx % 2 else y * float(np.max(np.abs(xf)) or 1.0)
+            drive_linearity(ctx, eqsig, IMPLS[(idx // 3) % 2], xf, y2, ab[0], ab[1])
         return
     # sinusoid items
     if kind == 'sin-allk':
@@ -631,15 +1097,28 @@ def run_item(ctx, eqsig, rng, idx, item):
         lo, hi = O.harmonic_range(2 * (length // 2))
         ks = [[lo, hi, int(rng.integers(lo, hi + 1))][idx % 3]]
         ndt = 4
+    xs = []
     for r, k in enumerate(ks):
         x = sinusoid(rng, length, k)
+        xs.append(x)
+        cont = sinusoid_container(rng, x, idx + 3 * r)
         dts = draw_dts(rng, idx * 3 + r, ndt)
         impl = IMPLS[r % 2] if kind == 'sin-everyN' else (IMPLS[0] if idx % 3 else IMPLS[1])   # tifq path only
-        use_abs = bool((idx + r) % 2)
-        ctx.case(core.digest(x, dts, impl, use_abs), nontrivial=True, cls='%s-%s' % (kind, _par(length)),
+        tform = TIFQ_FORMS[(idx + r) % len(TIFQ_FORMS)]
+        ctx.case(core.digest(x, [float(d) for d in dts], impl, tform), nontrivial=True,
+                 cls='%s-%s-%s' % (kind, _kind(cont).replace('ndarray:', ''), _par(length)),
                  sample={'fn': 'get_max_stockwell_freq(AccSignal)+get_max_tifq_vals_freq', 'n': length, 'harmonic': k,
-                         'dts': dts, 'impl': impl, 'modulus': use_abs, 'head': x[:6]})
-        drive_sinusoid(ctx, eqsig, x, dts, impl, use_abs, as_list=bool((idx + r) % 5 == 0))
+                         'dts': [float(d) for d in dts], 'impl': impl, 'tifq_form': tform, 'head': x[:6]})
+        drive_sinusoid(ctx, eqsig, cont, dts, impl, tform)
+    if kind == 'sin-everyN':
+        dts = draw_dts(rng, idx, 8)
+        # two sinusoids of the same length back to back (micro amplitude first every third time), then one object history
+        first = xs[0] if idx % 3 else sinusoid(rng, length, ks[0], amp=10.0 ** rng.uniform(-12, -9))
+        drive_back_to_back(ctx, eqsig, first, xs[1], dts[idx % 8], TIFQ_FORMS[(idx // 2) % len(TIFQ_FORMS)])
+        order = [['repeat', 'twin', 'read', 'clone', 'preset'][int(i)] for i in rng.permutation(5)]
+        order += [order[int(rng.integers(5))]]
+        ctx.case(core.digest(xs[2], xs[1], 'history', order), nontrivial=True, cls='history-%s' % _par(length))
+        drive_history(ctx, eqsig, xs[2].copy(), xs[1].copy(), dts[(idx + 1) % 8], dts[(idx + 2) % 8], order)
 
 
 def oracle_selfcheck(ctx, rng):
@@ -660,6 +1139,8 @@ def run_shard(ctx):
     install(ctx)
     rng = ctx.rng
     oracle_selfcheck(ctx, rng)
+    if ctx.shard < 2:
+        drive_out_of_domain(ctx, eqsig, rng)
     items = build_items(ctx.tier)
     for idx in core.split_range(len(items), ctx.shard, ctx.nshards):
         if ctx.out_of_time():
@@ -685,25 +1166,46 @@ def replay(w):
         b = O.s_transform_conj_scalar(rec)
         ok, idx, e, al = tol.worst(a, b, scale=float(np.sum(np.abs(rec))), rtol=1e-14)
         return [] if ok else ['oracle.vectorised==scalar: %s %.3g' % (idx, e)]
+    dt = _dt_build(w['dt'], w.get('dt_form')) if 'dt' in w else None
     try:
         if fn == 'linearity':
             drive_linearity(ctx, eqsig, w['impl'], np.asarray(rec, dtype=float), np.asarray(w['record2'], dtype=float),
                             w['a'], w['b'])
         elif fn in IMPLS:
-            getattr(sw, fn)(_container(rec, kind))
+            kw = w.get('kw') or []
+            cont = _container(rec, kind)
+            f = getattr(sw, fn)
+            if 'acc' in kw:
+                f(acc=cont, **({'interp': False} if 'interp' in kw else {}))
+            elif 'interp' in kw:
+                f(cont, interp=False)
+            else:
+                f(cont)
         elif fn == 'itransform':
             s = getattr(sw, w.get('impl', 'transform'))(_container(rec, kind))
-            sw.itransform(s)
+            t = derive(s, w.get('derived'))
+            remember(t, s, w.get('derived'))
+            sw.itransform(t)
         elif fn == 'get_max_stockwell_freq':
-            asig = eqsig.AccSignal(_container(rec, kind), w['dt'])
+            asig = eqsig.AccSignal(_container(rec, kind), dt)
+            if w.get('preset_swtf'):
+                asig.swtf = sw.transform(asig.values)
             sw.get_max_stockwell_freq(asig)
         elif fn == 'get_max_tifq_vals_freq':
             s = getattr(sw, w.get('impl', 'transform'))(_container(rec, kind))
-            t = s
-            if w.get('derived') == 'abs':
-                t = np.abs(s)
-                remember(t, s)
-            sw.get_max_tifq_vals_freq(t, w['dt'])
+            t = derive(s, w.get('derived'))
+            remember(t, s, w.get('derived'))
+            sw.get_max_tifq_vals_freq(t, dt)
+        elif fn == 'back-to-back':
+            drive_back_to_back(ctx, eqsig, _container(rec, kind),
+                               _container(w['record2'], w.get('container2', 'ndarray:float64')), dt, w.get('tform'))
+        elif fn == 'record-sequence':
+            drive_record(ctx, eqsig, _container(rec, kind), dt if dt is not None else 0.01, int(w.get('form', 0)))
+        elif fn == 'sinusoid-sequence':
+            drive_sinusoid(ctx, eqsig, _container(rec, kind), w.get('dts', [0.01]), w.get('impl', 'transform'), w.get('tform'))
+        elif fn == 'history':
+            drive_history(ctx, eqsig, np.array(rec, dtype=float), np.array(w['record2'], dtype=float), dt,
+                          _dt_build(w.get('dt2', 0.01), None), w.get('order', []))
         else:
             return ['unknown witness kind %r' % fn]
     except Exception as ex:   # an exception on the recorded in-domain input still refutes
